@@ -622,3 +622,40 @@ example :
     let b : DD := ⟨false, PSet.add c PSet.empty 5⟩
     (DD.diff c a b).map (fun r => (r.contain 3, r.contain 5, r.contain (2 ^ 63))) = some (true, false, true) := by
   decide
+
+/-- `discrete_domain::rename(from, to)`: on a value that is neither top nor bottom the result is the
+    left fold, pair by pair, of "if `from_i` is an element, replace it by `to_i`" on the element
+    predicate (`DD.renameStepSpec`); top and bottom are returned unchanged. -/
+theorem C19.dd_rename (pe : PSet.T → PSet.T → Bool) (hpe : ∀ a b, pe a b = true → a = b) (a : DD)
+    (ha : DD.Inv a) (hat : a.isTop = false) (hab : a.isBottom = false) (frm to : List Nat)
+    (hlen : frm.length = to.length) (hf : ∀ k ∈ frm, k < 2 ^ 64) (ht : ∀ k ∈ to, k < 2 ^ 64) :
+    ∃ r, DD.rename (PSet.ctx pe) a frm to = some r ∧ DD.Inv r ∧ r.isTop = false ∧
+      ∀ k, r.contain k = ((frm.zip to).foldl DD.renameStepSpec a.contain) k :=
+  DD.rename_spec (PSet.ctx_sound pe hpe) ha hat hab frm to hlen hf ht
+theorem C19.dd_rename_top_bottom (pe : PSet.T → PSet.T → Bool) (a : DD)
+    (h : a.isTop = true ∨ a.isBottom = true) (frm to : List Nat) :
+    DD.rename (PSet.ctx pe) a frm to = some a :=
+  DD.rename_top_bottom (PSet.ctx pe) h frm to
+/-- one pair, the readable instance: renaming an element `f` to `t ≠ f` -/
+theorem C19.dd_rename_one (pe : PSet.T → PSet.T → Bool) (hpe : ∀ a b, pe a b = true → a = b) (a : DD)
+    (ha : DD.Inv a) (hat : a.isTop = false) (f t : Nat) (hf : f < 2 ^ 64) (ht : t < 2 ^ 64)
+    (hne : f ≠ t) (hin : a.contain f = true) :
+    ∃ r, DD.rename (PSet.ctx pe) a [f] [t] = some r ∧ DD.Inv r ∧
+      ∀ k, r.contain k = (decide (k = t) || (!decide (k = f) && a.contain k)) := by
+  have hab : a.isBottom = false := by
+    cases h : a.isBottom
+    · rfl
+    · simp [DD.contain, h] at hin
+  obtain ⟨r, h1, h2, _, h4⟩ := C19.dd_rename pe hpe a ha hat hab [f] [t] rfl
+    (by simpa using hf) (by simpa using ht)
+  refine ⟨r, h1, h2, fun k => ?_⟩
+  rw [h4]
+  simp only [List.zip_cons_cons, List.zip_nil_right, List.foldl, DD.renameStepSpec, if_neg hne, hin, if_true]
+  by_cases e1 : k = t
+  · simp [e1]
+  · by_cases e2 : k = f <;> simp [e1, e2]
+example :
+    let c := PSet.ctx (fun _ _ => false)
+    let a : DD := ⟨false, PSet.add c (PSet.add c PSet.empty 3) (2 ^ 63)⟩
+    (DD.rename c a [3] [7]).map (fun r => (r.contain 3, r.contain 7, r.contain (2 ^ 63))) = some (false, true, true) := by
+  decide
